@@ -284,7 +284,7 @@ impl Check for C18 {
     const ID: &'static str = "C18";
     const LEVEL: &'static str = "fault_enumeration";
     fn runs(t: Tier) -> u64 {
-        t.pick(6_000, 500_000)
+        t.pick(12_000, 600_000)
     }
     fn generate(rng: &mut Rng, _tier: Tier, idx: u64) -> Case {
         if idx % 40 == 17 {
